@@ -91,7 +91,8 @@ CORPUS = {
 (and a a a a a a a a a a)
 (check-sat)
 ''',
-    'quoted': '''(declare-const |q v| (_ BitVec 8))
+    'quoted': '''(declare-const |_q v| (_ BitVec 2))
+(declare-const |q v| (_ BitVec 8))
 (declare-const |s t| String)
 (declare-fun |f g| () (_ BitVec 4))
 (assert (str.contains |s t| "a"))
